@@ -29,7 +29,8 @@ from ufl import (Mesh, FunctionSpace, TrialFunction, TestFunction, Coefficient, 
     as_vector, as_tensor, as_matrix, det, tr, sym, Identity, derivative, action, adjoint,
     max_value, min_value, Measure, TestFunctions, TrialFunctions, split, Dx, nabla_grad,
     elem_mult, cross, perp, transpose, dev, skew, sign, tan, cosh, sinh, tanh, atan, atan2,
-    bessel_J, bessel_Y, VectorConstant, TensorConstant)
+    bessel_J, bessel_Y, VectorConstant, TensorConstant, MinCellEdgeLength, MaxCellEdgeLength,
+    MinFacetEdgeLength, MaxFacetEdgeLength, FacetArea, CellNormal, bessel_I, bessel_K, pi, exp, ln)
 def el(family, cell, deg, shape=None, **kw):
     return basix.ufl.element(family, cell, deg, shape=shape, **kw)
 def mesh(cell, deg=1, gdim=None):
@@ -65,6 +66,37 @@ class Captured:
         self.analysis = None
         self.options = None
         self.opt_calls = []  # (input copy, output) of optimizer.optimize
+
+
+class _Captured(Exception):
+    pass
+
+
+def jit_forms(forms, options):
+    """the UFL forms that ffcx.codegeneration.jit.compile_forms really hands to the compiler
+    (it rewrites bilinear forms on mixed spaces when part='diagonal'): the real function is
+    run up to the point where it would generate code."""
+    import shutil
+    import tempfile
+
+    import ffcx.codegeneration.jit as jit
+    box = {}
+
+    def stop(decl, ufl_objects, *a, **k):
+        box["forms"] = list(ufl_objects)
+        raise _Captured()
+
+    saved = jit._compile_objects
+    jit._compile_objects = stop
+    d = tempfile.mkdtemp(prefix="vfjf_")
+    try:
+        jit.compile_forms(list(forms), options=dict(options or {}), cache_dir=d)
+    except _Captured:
+        pass
+    finally:
+        jit._compile_objects = saved
+        shutil.rmtree(d, ignore_errors=True)
+    return box["forms"]
 
 
 def scope_log(gen, domain):
